@@ -64,4 +64,15 @@ def observe (m : Mode) (h : Hist) (force : Req) (all : Bool) (managed : List Str
                  else .violated "required-expression-not-managed-after-first-load"
     | none => .violated "in-force-configuration-not-managed-after-update-settled"
 
+/-- Verdict of one `txn?` observation: while the engine still serves an in-flight transaction from the policies
+    version it is anchored to (its response leg would get that version's remedies), the proxy must still manage
+    what that version requires — at EVERY instant, not only settled ones.  `none` = the anchor is no longer
+    retained (or was voided by an immediate un-manage): nothing to check. -/
+def observeTxn (view : Option Req) (all : Bool) (managed : List String) : Verdict :=
+  match view with
+  | none => .ok
+  | some req =>
+    if requiredOK req all managed then .ok
+    else .violated "anchored-transaction-still-handled-by-the-engine-but-endpoint-unmanaged"
+
 end LunarVerif.C14.Reload
